@@ -17,7 +17,7 @@ CLAIMS = {
     ),
     'C26': (
         'model_checking',
-        'TLC enumerates every single-pattern members-filtered request of the regex AST domain (spec/Regex.tla RE(d) over {a, b, .} with concatenation, alternation, star, optional; 13 status patterns; 8 invalid patterns per field) plus sampled mixed name/status/tag requests, one RPC per TLC state against a real agent holding 39 members (every name of length <= 3 over {a,b,c}, seeded statuses alive/leaving/left/failed and tag values, missing tags); TLC compares the returned member set with the documented whole-string meaning (Regex!Lang) and checks that an invalid pattern yields no list; laws relating the whole-string matcher, the splitting matcher used for statuses and the model of the code ("^" + expr + "$" without grouping) are checked as ASSUME.',
+        'TLC enumerates every single-pattern members-filtered request of the regex AST domain (spec/Regex.tla RE(d) over {a, b, .} with concatenation, alternation, star, optional; 13 status patterns; 8 invalid patterns per field) plus sampled mixed name/status/tag requests, one RPC per TLC state against a real agent holding 39 members (every name of length <= 3 over {a,b,c}, seeded statuses alive/leaving/left/failed and tag values, missing tags); TLC compares the returned member set with the documented whole-string meaning (Regex!Lang) and checks that an invalid pattern yields no list; the model of the code is the oracle since the grouping fix a8ceccf (0 divergences expected); laws relating the whole-string matcher, the splitting matcher used for statuses and the historic ungrouped anchoring are checked as ASSUME.',
         'Trusts TLC, spec/Regex.tla as the meaning of the pattern ASTs, the renderer from ASTs to Go syntax with minimal bracketing, and the population set-up through NotifyJoin / NotifyLeave and leave intents (verified against Serf.Members before the requests).',
         'TLA+ functional oracle (MemberFilter over Regex) + TLC enumeration of the bounded input domain; every request executed on the real agent through the real IPC; TLC trace validation comparing observed and documented result',
         '5 C26',
@@ -182,17 +182,12 @@ def run_c26(ctx, replay):
     else:
         depth = 2 if ctx.thorough() else 1
         # exhaustive: every single-pattern request of the AST domain on the model's population; the model (= the code as it
-        # is) meets the monitor except under the tag of the recorded finding; the laws of the definitions (ASSUME, depth 1)
+        # is since a8ceccf) meets the monitor; the laws of the definitions (ASSUME, depth 1)
         cfg = MF_CONST % ("GPop", 1) + "CONSTANT Depth = %d\nINIT AllInit\nNEXT AllNext\n" % depth
-        mc = vlib.tlc(ctx, "Gen_MemberFilter", cfg + "INVARIANT C26Waived\nACTION_CONSTRAINT Emit\n", workers=1, timeout=3000)
+        mc = vlib.tlc(ctx, "Gen_MemberFilter", cfg + "INVARIANT C26\nACTION_CONSTRAINT Emit\n", workers=1, timeout=3000)
         if mc.violated:
-            raise vlib.Inconclusive("the model violates C26 outside the recorded finding -- spec error, no verdict")
+            raise vlib.Inconclusive("the model violates C26 -- spec error, no verdict")
         reqs = [e[0] for e in vlib.edge_schedules(mc)]
-        # the recorded finding must be reachable in the model (otherwise its waiver is vacuous)
-        for inv in ("NoAltFinding", "NoAnchFinding"):
-            r2 = vlib.tlc(ctx, "Gen_MemberFilter", MF_CONST % ("GPop", 1) + "CONSTANT Depth = 1\nINIT AllInit\nNEXT AllNext\nINVARIANT %s\n" % inv, workers=1)
-            if r2.violated != inv:
-                raise vlib.Inconclusive("recorded finding (%s) not reachable in the model" % inv)
         num, depth_s = (260, 24) if ctx.thorough() else (70, 24)
         _, sim = vlib.simulate_schedules(ctx, "Gen_MemberFilter", MF_CONST % ("GPop", 12) + "CONSTANT Depth = 2\nINIT GenInit\nNEXT GenNext\n",
                                          num, depth_s, workers=4)
@@ -250,13 +245,10 @@ def run_c30(ctx, replay):
         scheds = [json.load(open(replay))["schedule"]]
     else:
         vals, steps = ([1, 2, 3, 4], 3) if ctx.thorough() else ([1, 3, 4], 3)
-        mc = vlib.tlc(ctx, "AgentTags", tags_consts(vals, steps) + "INIT Init\nNEXT Next\nVIEW View\nINVARIANT C30Waived\nINVARIANT TypeOK\n",
+        mc = vlib.tlc(ctx, "AgentTags", tags_consts(vals, steps) + "INIT Init\nNEXT Next\nVIEW View\nINVARIANT C30\nINVARIANT TypeOK\n",
                       workers=8, timeout=3000)
         if mc.violated:
-            raise vlib.Inconclusive("the model violates %s outside the recorded finding -- spec error, no verdict" % mc.violated)
-        r2 = vlib.tlc(ctx, "AgentTags", tags_consts([1, 3, 4], 2) + "INIT Init\nNEXT Next\nVIEW View\nINVARIANT C30\n", workers=1)
-        if r2.violated != "C30":
-            raise vlib.Inconclusive("rejected-edit finding not reachable in the model")
+            raise vlib.Inconclusive("the model violates %s -- spec error, no verdict" % mc.violated)
         num, depth = (3000, 6) if ctx.thorough() else (500, 4)
         _, scheds = vlib.simulate_schedules(ctx, "Gen_AgentTags", tags_consts([1, 2, 3, 4], depth) + "INIT GenInit\nNEXT GenNext\n", num, depth)
     tp = execute(ctx, binary, "tags", scheds, "a")
@@ -355,13 +347,10 @@ def run_c25(ctx, replay):
                        workers=8, timeout=3000)
         if mcs.violated:
             raise vlib.Inconclusive("IPCStreams violates its own monitor -- spec error, no verdict")
-        mcq = vlib.tlc(ctx, "IPCQuery", Q_CONST % (("1, 2", 8) if ctx.thorough() else ("1", 7)) + "INIT Init\nNEXT Next\nINVARIANT C25QWaived\n",
+        mcq = vlib.tlc(ctx, "IPCQuery", Q_CONST % (("1, 2", 8) if ctx.thorough() else ("1", 7)) + "INIT Init\nNEXT Next\nINVARIANT C25Q\n",
                        workers=8, timeout=3000)
         if mcq.violated:
-            raise vlib.Inconclusive("IPCQuery violates C25 outside the recorded finding -- spec error, no verdict")
-        r2 = vlib.tlc(ctx, "IPCQuery", Q_CONST % ("1", 5) + "INIT Init\nNEXT Next\nINVARIANT C25Q\n", workers=1)
-        if r2.violated != "C25Q":
-            raise vlib.Inconclusive("closed-channel finding not reachable in the model")
+            raise vlib.Inconclusive("IPCQuery violates its own monitor -- spec error, no verdict")
         ns, ds, nq, dq = (1500, 40, 640, 36) if ctx.thorough() else (160, 30, 80, 30)
         _, ss = vlib.simulate_schedules(ctx, "Gen_IPCStreams", ST_CONST % ("1, 2, 3", ds) + "INIT GenInit\nNEXT GenNext\n", ns, ds)
         for s in ss:
@@ -381,9 +370,9 @@ def run_c25(ctx, replay):
         rep = vlib.validate(ctx, module, cfg, tp, timeout=3000)
 
         def rerun(sched, tag, module=module, cfg=cfg, mode=mode, extra=extra):
-            # the closed-channel records depend on Go's random choice among ready select cases (and, un-gated, on which
-            # of two timers fires first): the schedule is re-executed from scratch 6 times, one more failure confirms
-            return vlib.validate(ctx, module, cfg, execute(ctx, binary, mode, [sched] * 6, tag, extra=extra))
+            # which ready case a Go select takes is random (and, un-gated, which of two timers fires first): the schedule
+            # is re-executed from scratch 3 times, one more failure confirms
+            return vlib.validate(ctx, module, cfg, execute(ctx, binary, mode, [sched] * 3, tag, extra=extra))
         vs = confirm(ctx, rep, scheds, "C25_", rerun, per_key=2)
         for v in vs:
             v["part"] = part
@@ -411,7 +400,7 @@ def run_c25(ctx, replay):
     }
     assume = ["the loop's own deadline timer and the timer that closes the QueryResponse fire within microseconds of each other and cannot be "
               "separated by the harness: a loop blocked in its select at the deadline takes the done case",
-              "which ready select case Go picks is random: a zero-value record after expiry shows with probability >= 1/2 per iteration",
+              "which ready select case Go picks is random; since b4a2fad a closed, drained channel costs a silent iteration (no record)",
               "events reach the agent one at a time in the logged order (user events through agent.UserEvent, member events through "
               "NotifyJoin/NotifyLeave, queries through NotifyMsg); registration of a stream is awaited before the next step"]
     vlib.finish(ctx, "model_checking", cov, assume, new, known)
